@@ -132,7 +132,7 @@ Proof.
 Qed.
 
 Lemma wait_sim t s :
-  wf s -> let '(s', e) := c_wait t s in wf s' /\ cspec_step (cabs s) (CWait t) = (cabs s', e).
+  wf s -> let '(s', e) := c_wait (timed_of t) s in wf s' /\ cspec_step (cabs s) (CWait t) = (cabs s', e).
 Proof.
   intros (HS & HB & HP). unfold c_wait, cspec_step, cabs. simpl. split.
   - repeat split; simpl.
@@ -151,7 +151,7 @@ Lemma cstep_sim s o :
   wf s -> wf (fst (cstep s o)) /\ cspec_step (cabs s) o = (cabs (fst (cstep s o)), snd (cstep s o)).
 Proof.
   intros W. destruct o as [t|n| |w|w|]; unfold cstep.
-  - pose proof (wait_sim t s W) as A. destruct (c_wait t s). exact A.
+  - pose proof (wait_sim t s W) as A. destruct (c_wait (timed_of t) s). exact A.
   - pose proof (notify_sim n s W) as A. destruct (c_notify n s). exact A.
   - pose proof (notify_all_sim s W) as A. destruct (c_notify _ s). exact A.
   - pose proof (fire_sim KSem 0 w s W) as A. destruct (do_fire w s) as [s' e]. destruct A as [W' E]. split; auto.
